@@ -423,6 +423,10 @@ def const(ctx: Any) -> List[Ob]:
     calls = [c for c in walk_local_ordered(rf.node) if isinstance(c, ast.Call) and call_name(c) == 'get_expiration_time']
     vals = sorted(str(prog.try_fold(rf.module, c.args[0])[1]) for c in calls)
     obs.append(ob(R, rf, 'pointer.get_expiration_time(_EXPIRE_REFRESH_TIME_PERCENT) / (100)', 'refresh time is 75 % and expiry 100 % of the record lifetime', vals == ['100', '75'], str(vals)))
+    # the schedule is planned from the received copy; the cached record the queries are about holds the same lifetime
+    from .c05 import reset_ttl_obligations
+
+    obs.extend(reset_ttl_obligations(ctx, R))
     # the interval constant reaches the scheduler
     base = prog.func('zeroconf._services.browser._ServiceBrowserBase.__init__')
     ctor = [c for c in walk_local_ordered(base.node) if isinstance(c, ast.Call) and call_name(c) == 'QueryScheduler']
